@@ -282,8 +282,8 @@ impl Payload for Txt {
 /// mode: 0 = `{}`, 1 = `{:#}`, 2 = `{:?}`, 3 = `{:#?}`
 pub fn txt_text(tid: u64, val: u64, mode: u8) -> String {
     let mut r = crate::rng::Rng::derive(tid, val, mode as u64 + 11);
-    const ALPHA: [&str; 14] = [
-        "a", "b", "|", "`", "-", " ", "  ", "|   ", "`-- ", "|-- ", "é", "x", "    ", "7",
+    const ALPHA: [&str; 16] = [
+        "a", "b", "|", "`", "-", " ", "  ", "|   ", "`-- ", "|-- ", "é", "x", "    ", "7", "\r", "\t",
     ];
     let nlines = match r.below(10) {
         0..=3 => 1,
@@ -308,6 +308,10 @@ pub fn txt_text(tid: u64, val: u64, mode: u8) -> String {
         }
         if r.chance(1, 2) {
             s.push_str(&format!("{}m{}", tid, mode));
+        }
+        if !last && r.chance(1, 5) {
+            // a line that ends in a carriage return (CRLF text kept verbatim)
+            s.push('\r');
         }
         lines.push(s);
     }
